@@ -163,6 +163,10 @@ func RunSched(c *Ctx, sc *vrt.Scenario, _ func(v *vrt.Violation) string) *Report
 	if sc.Opt.Seed == 0 {
 		sc.Opt.Seed = c.Seed
 	}
+	if c.Job.Params["pool"] == "recycle" {
+		// any scheduled scenario can be run with recycling sync.Pools (default: never recycle, poison on Put)
+		sc.Opt.PoolRecycle = true
+	}
 	e := &vrt.Explorer{Sc: sc, Bound: c.Job.Bound, Deadline: c.Deadline, StopFirst: false}
 	if os.Getenv("VERIF_NOPRUNE") != "" {
 		e.NoPrune = true
